@@ -1487,6 +1487,29 @@ func (c *Ctx) seqIndex() {
 				if !okKnown || okv {
 					problems = append(problems, "success is reported without a value")
 				}
+				// ... and when the index does address a position, "nothing" means that the slot
+				// holds nil - a value that merely looks empty (a typed nil pointer) is still returned
+				if want != nil && pr.le(c.intConst(0), i) && pr.lt(i, L) {
+					slotNil := false
+					for _, b := range fn.Blocks {
+						for _, in := range b.Instrs {
+							ld, ok := in.(*ssa.UnOp)
+							if !ok || ld.Op != token.MUL {
+								continue
+							}
+							ia, ok := ld.X.(*ssa.IndexAddr)
+							if !ok || ia.X != ssa.Value(fn.Params[0]) {
+								continue
+							}
+							if v, known := fa.nonNil(s, ld); known && !v {
+								slotNil = true
+							}
+						}
+					}
+					if !slotNil {
+						problems = append(problems, "an index that addresses a position yields nothing although the slot is not known to hold nil (a typed nil pointer or other 'empty-looking' value must be returned as it is)")
+					}
+				}
 				continue
 			}
 			if want == nil {
